@@ -382,44 +382,85 @@ func c07GPUPerDevice(shared, core, ratio, mem int64, hasCore, hasRatio, hasMem b
 	return per, int(count)
 }
 
+// c07Usable is a healthy device with a non-zero total, as the model sees it right now.
+type c07Usable struct {
+	free, total map[corev1.ResourceName]int64
+}
+
+// c07Hints aims the request generator at the boundary of what the node can serve right now (free, free+-1 of some
+// device; as many devices as are usable, one more). It only steers generation; the oracle never looks at it.
 type c07Hints struct {
-	pct   []int64 // interesting percentage values (free core / ratio / rdma of some device, +-1)
-	bytes []int64 // interesting byte values
-	nGPU  int
-	n     map[schedulingv1alpha1.DeviceType]int
+	usable map[schedulingv1alpha1.DeviceType][]c07Usable
+	n      map[schedulingv1alpha1.DeviceType]int // all reported devices of the type
+	target map[schedulingv1alpha1.DeviceType]*c07Usable
 }
 
 func (w *c07World) hints() c07Hints {
-	h := c07Hints{n: map[schedulingv1alpha1.DeviceType]int{}}
+	h := c07Hints{usable: map[schedulingv1alpha1.DeviceType][]c07Usable{}, n: map[schedulingv1alpha1.DeviceType]int{}, target: map[schedulingv1alpha1.DeviceType]*c07Usable{}}
 	free := c07Free(w.modelTotal(), w.modelUsed())
 	for _, d := range w.inv {
 		h.n[d.Type]++
-		for rn := range d.Res {
-			v := free[c07Key(d.Type, d.Minor, rn)]
-			if rn == apiext.ResourceGPUMemory {
-				h.bytes = append(h.bytes, v, v+1, v-1, d.Res[rn], d.Res[rn]/2, d.Res[rn]/100)
-			} else {
-				h.pct = append(h.pct, v, v+1, v-1)
+		if !d.Health || w.invalidated {
+			continue
+		}
+		u := c07Usable{free: map[corev1.ResourceName]int64{}, total: map[corev1.ResourceName]int64{}}
+		nonzero := false
+		for rn, v := range d.Res {
+			u.total[rn] = v
+			u.free[rn] = free[c07Key(d.Type, d.Minor, rn)]
+			if v > 0 {
+				nonzero = true
 			}
 		}
+		if nonzero {
+			h.usable[d.Type] = append(h.usable[d.Type], u)
+		}
 	}
-	h.nGPU = h.n[schedulingv1alpha1.GPU]
 	return h
 }
 
-func c07Pct(t *rapid.T, h c07Hints, label string) int64 {
+func (h c07Hints) aim(t *rapid.T, dt schedulingv1alpha1.DeviceType) {
+	if us := h.usable[dt]; len(us) > 0 {
+		h.target[dt] = &us[rapid.IntRange(0, len(us)-1).Draw(t, "aimAt")]
+	}
+}
+
+// c07Whole draws a number of whole devices: up to the number of usable ones, sometimes one more.
+func c07Whole(t *rapid.T, h c07Hints, dt schedulingv1alpha1.DeviceType, label string) int64 {
+	u := int64(len(h.usable[dt]))
+	k := rapid.Int64Range(1, u+1).Draw(t, label)
+	if k == u+1 && u > 0 && rapid.Bool().Draw(t, label+"Clamp") {
+		k = rapid.Int64Range(1, u).Draw(t, label+"Within")
+	}
+	return k
+}
+
+func c07Pct(t *rapid.T, h c07Hints, dt schedulingv1alpha1.DeviceType, rn corev1.ResourceName, label string) int64 {
+	f := int64(100)
+	if tg := h.target[dt]; tg != nil {
+		f = tg.free[rn]
+	}
 	v := int64(0)
-	switch rapid.IntRange(0, 3).Draw(t, label+"Kind") {
+	switch rapid.IntRange(0, 7).Draw(t, label+"Kind") {
 	case 0:
-		v = rapid.Int64Range(1, 100).Draw(t, label)
+		v = f
 	case 1:
-		v = rapid.SampledFrom([]int64{100, 100, 50, 50, 25, 1, 99}).Draw(t, label)
-	default:
-		if len(h.pct) > 0 {
-			v = rapid.SampledFrom(h.pct).Draw(t, label)
-		} else {
-			v = rapid.Int64Range(1, 100).Draw(t, label)
+		v = f - 1
+	case 2:
+		v = f + 1
+	case 3, 4, 5:
+		hi := f
+		if hi > 100 {
+			hi = 100
 		}
+		if hi < 1 {
+			hi = 1
+		}
+		v = rapid.Int64Range(1, hi).Draw(t, label)
+	case 6:
+		v = rapid.Int64Range(1, 100).Draw(t, label)
+	default:
+		v = rapid.SampledFrom([]int64{100, 50, 25, 1, 99}).Draw(t, label)
 	}
 	if v < 1 {
 		v = 1
@@ -431,10 +472,29 @@ func c07Pct(t *rapid.T, h c07Hints, label string) int64 {
 }
 
 func c07Bytes(t *rapid.T, h c07Hints, min int64, label string) int64 {
-	v := int64(1 << 30)
-	if len(h.bytes) > 0 && rapid.IntRange(0, 3).Draw(t, label+"Kind") > 0 {
-		v = rapid.SampledFrom(h.bytes).Draw(t, label)
-	} else {
+	f, total := int64(1<<30), int64(1<<30)
+	if tg := h.target[schedulingv1alpha1.GPU]; tg != nil {
+		f, total = tg.free[apiext.ResourceGPUMemory], tg.total[apiext.ResourceGPUMemory]
+	}
+	v := int64(0)
+	switch rapid.IntRange(0, 8).Draw(t, label+"Kind") {
+	case 0:
+		v = f
+	case 1:
+		v = f - 1
+	case 2:
+		v = f + 1
+	case 3:
+		v = total
+	case 4: // exactly k percent of the device
+		v = total / 100 * rapid.Int64Range(1, 100).Draw(t, label+"Pct")
+	case 5, 6, 7:
+		hi := f
+		if hi < 1 {
+			hi = 1
+		}
+		v = rapid.Int64Range(1, hi).Draw(t, label)
+	default:
 		v = rapid.Int64Range(1, 1<<36+1).Draw(t, label)
 	}
 	if v < min {
@@ -448,8 +508,20 @@ func c07Bytes(t *rapid.T, h c07Hints, min int64, label string) int64 {
 func c07GenRequest(t *rapid.T, h c07Hints, memMode int) c07Request {
 	req := c07Request{Pod: corev1.ResourceList{}, Per: map[schedulingv1alpha1.DeviceType]map[corev1.ResourceName]int64{}, Count: map[schedulingv1alpha1.DeviceType]int{}}
 	which := rapid.SampledFrom([]string{"gpu", "gpu", "gpu", "gpu", "rdma", "fpga", "gpu+rdma", "gpu+rdma+fpga", "rdma+fpga"}).Draw(t, "types")
+	if rapid.IntRange(0, 4).Draw(t, "onlyPresentTypes") > 0 { // mostly ask for device types the node reports at all
+		var keep []string
+		for _, s := range strings.Split(which, "+") {
+			if h.n[schedulingv1alpha1.DeviceType(s)] > 0 {
+				keep = append(keep, s)
+			}
+		}
+		if len(keep) > 0 {
+			which = strings.Join(keep, "+")
+		}
+	}
 	var descs []string
 	if strings.Contains(which, "gpu") {
+		h.aim(t, schedulingv1alpha1.GPU)
 		kinds := []int{0, 1, 2, 2, 3, 4}
 		switch memMode {
 		case 1:
@@ -458,7 +530,10 @@ func c07GenRequest(t *rapid.T, h c07Hints, memMode int) c07Request {
 			kinds = []int{0, 1, 2, 3, 4, 5, 6, 7}
 		}
 		kind := rapid.SampledFrom(kinds).Draw(t, "gpuKind")
-		whole := func(label string) int64 { return rapid.Int64Range(1, int64(h.nGPU)+1).Draw(t, label) }
+		whole := func(label string) int64 { return c07Whole(t, h, schedulingv1alpha1.GPU, label) }
+		pct := func(rn corev1.ResourceName, label string) int64 {
+			return c07Pct(t, h, schedulingv1alpha1.GPU, rn, label)
+		}
 		q := func(v int64) resource.Quantity { return *resource.NewQuantity(v, resource.DecimalSI) }
 		var shared, core, ratio, mem int64
 		var hasCore, hasRatio, hasMem bool
@@ -469,7 +544,7 @@ func c07GenRequest(t *rapid.T, h c07Hints, memMode int) c07Request {
 			core, ratio, hasCore, hasRatio = 100*k, 100*k, true, true
 			descs = append(descs, fmt.Sprintf("nvidia.com/gpu=%d", k))
 		case 1: // koordinator.sh/gpu: v  == core v + memory-ratio v
-			v := c07Pct(t, h, "koordGPU")
+			v := pct(apiext.ResourceGPUMemoryRatio, "koordGPU")
 			if rapid.IntRange(0, 3).Draw(t, "koordGPUWhole") == 0 {
 				v = 100 * whole("koordGPUk")
 			}
@@ -477,7 +552,7 @@ func c07GenRequest(t *rapid.T, h c07Hints, memMode int) c07Request {
 			core, ratio, hasCore, hasRatio = v, v, true, true
 			descs = append(descs, fmt.Sprintf("koordinator.sh/gpu=%d", v))
 		case 2: // gpu-core + gpu-memory-ratio
-			core, ratio, hasCore, hasRatio = c07Pct(t, h, "core"), c07Pct(t, h, "ratio"), true, true
+			core, ratio, hasCore, hasRatio = pct(apiext.ResourceGPUCore, "core"), pct(apiext.ResourceGPUMemoryRatio, "ratio"), true, true
 			switch rapid.IntRange(0, 5).Draw(t, "coreRatioShape") {
 			case 0:
 				k := whole("k")
@@ -490,7 +565,7 @@ func c07GenRequest(t *rapid.T, h c07Hints, memMode int) c07Request {
 			req.Pod[apiext.ResourceGPUCore], req.Pod[apiext.ResourceGPUMemoryRatio] = q(core), q(ratio)
 			descs = append(descs, fmt.Sprintf("gpu-core=%d gpu-memory-ratio=%d", core, ratio))
 		case 3: // gpu-memory-ratio alone
-			ratio, hasRatio = c07Pct(t, h, "ratio"), true
+			ratio, hasRatio = pct(apiext.ResourceGPUMemoryRatio, "ratio"), true
 			if rapid.IntRange(0, 3).Draw(t, "ratioWhole") == 0 {
 				ratio = 100 * whole("k")
 			}
@@ -498,11 +573,11 @@ func c07GenRequest(t *rapid.T, h c07Hints, memMode int) c07Request {
 			descs = append(descs, fmt.Sprintf("gpu-memory-ratio=%d", ratio))
 		case 4: // gpu.shared + ratio (+ core)
 			shared = rapid.Int64Range(1, 3).Draw(t, "shared")
-			ratio, hasRatio = shared*c07Pct(t, h, "ratioPerShare"), true
+			ratio, hasRatio = shared*pct(apiext.ResourceGPUMemoryRatio, "ratioPerShare"), true
 			req.Pod[apiext.ResourceGPUShared], req.Pod[apiext.ResourceGPUMemoryRatio] = q(shared), q(ratio)
 			d := fmt.Sprintf("gpu.shared=%d gpu-memory-ratio=%d", shared, ratio)
 			if rapid.Bool().Draw(t, "sharedCore") {
-				core, hasCore = shared*c07Pct(t, h, "corePerShare"), true
+				core, hasCore = shared*pct(apiext.ResourceGPUCore, "corePerShare"), true
 				req.Pod[apiext.ResourceGPUCore] = q(core)
 				d += fmt.Sprintf(" gpu-core=%d", core)
 			}
@@ -512,7 +587,7 @@ func c07GenRequest(t *rapid.T, h c07Hints, memMode int) c07Request {
 			req.Pod[apiext.ResourceGPUMemory] = c07Quantity(apiext.ResourceGPUMemory, mem)
 			descs = append(descs, fmt.Sprintf("gpu-memory=%d", mem))
 		case 6: // gpu-core + gpu-memory bytes
-			core, hasCore = c07Pct(t, h, "core"), true
+			core, hasCore = pct(apiext.ResourceGPUCore, "core"), true
 			if rapid.IntRange(0, 7).Draw(t, "coreWhole") == 0 {
 				core = 100 * whole("kCore")
 			}
@@ -527,7 +602,7 @@ func c07GenRequest(t *rapid.T, h c07Hints, memMode int) c07Request {
 			req.Pod[apiext.ResourceGPUMemory] = c07Quantity(apiext.ResourceGPUMemory, mem)
 			d := fmt.Sprintf("gpu.shared=%d gpu-memory=%d", shared, mem)
 			if rapid.Bool().Draw(t, "sharedCore") {
-				core, hasCore = shared*c07Pct(t, h, "corePerShare"), true
+				core, hasCore = shared*pct(apiext.ResourceGPUCore, "corePerShare"), true
 				req.Pod[apiext.ResourceGPUCore] = q(core)
 				d += fmt.Sprintf(" gpu-core=%d", core)
 			}
@@ -540,9 +615,10 @@ func c07GenRequest(t *rapid.T, h c07Hints, memMode int) c07Request {
 			continue
 		}
 		rn := c07TypeResource(dt)
-		v := c07Pct(t, h, string(dt))
+		h.aim(t, dt)
+		v := c07Pct(t, h, dt, rn, string(dt))
 		if rapid.IntRange(0, 2).Draw(t, string(dt)+"Whole") == 0 {
-			v = 100 * rapid.Int64Range(1, int64(h.n[dt])+1).Draw(t, string(dt)+"k")
+			v = 100 * c07Whole(t, h, dt, string(dt)+"k")
 		}
 		req.Pod[rn] = *resource.NewQuantity(v, resource.DecimalSI)
 		// a percentage above 100 that is a multiple of 100 asks for v/100 whole devices, 100 each
@@ -561,7 +637,7 @@ func c07GenRequest(t *rapid.T, h c07Hints, memMode int) c07Request {
 func c07NewPod(name string, req corev1.ResourceList) *corev1.Pod {
 	return &corev1.Pod{
 		ObjectMeta: metav1.ObjectMeta{Namespace: "default", Name: name, UID: types.UID(name)},
-		Spec: corev1.PodSpec{Containers: []corev1.Container{{Name: "main", Resources: corev1.ResourceRequirements{Requests: req.DeepCopy(), Limits: req.DeepCopy()}}}},
+		Spec:       corev1.PodSpec{Containers: []corev1.Container{{Name: "main", Resources: corev1.ResourceRequirements{Requests: req.DeepCopy(), Limits: req.DeepCopy()}}}},
 	}
 }
 
